@@ -531,6 +531,10 @@ func htmlProvenanceRule(r *Run, rule string) {
 				return true
 			}
 			con := "template.HTML(" + short(w.Fset, c.Args[0]) + ")"
+			if ex, ok := c01HTMLExceptions[f.Name()]; ok {
+				r.Ok(rule, f.Name(), "template.HTML(...) in "+f.Name(), w.Pos(c.Pos()), "frozen exception: "+ex)
+				return true
+			}
 			why := htmlOrigin(w, info, f, c.Args[0], rawFns, 0)
 			if why != "" {
 				r.Ok(rule, f.Name(), con, w.Pos(c.Pos()), why)
@@ -571,8 +575,11 @@ func htmlOrigin(w *World, info *types.Info, f *FuncInfo, e ast.Expr, rawFns map[
 			if in := htmlOrigin(w, info, f, c.Args[0], rawFns, depth+1); in != "" {
 				return "JS-escaped " + in
 			}
-		case funcIs(cal, "fmt", "Sprintf") && f.Rel == "helpers/debug":
-			return "frozen exception: debug's documented purpose is to dump a value inside <pre>"
+		case cal != nil:
+			// a function of this module: every value it returns at that position must be licensed in its own body
+			if g := w.FuncOf(cal); g != nil && g.Decl.Body != nil {
+				return returnedOrigin(w, g, 0, rawFns, depth+1)
+			}
 		}
 		return ""
 	}
@@ -643,6 +650,13 @@ func htmlOrigin(w *World, info *types.Info, f *FuncInfo, e ast.Expr, rawFns map[
 						continue
 					case cal == nil:
 						// dynamic call: the partial feeder's text is rendered before use; not licensed by itself
+					default:
+						if g := w.FuncOf(cal); g != nil && g.Decl.Body != nil {
+							if wy := returnedOrigin(w, g, 0, rawFns, depth+1); wy != "" {
+								whys = append(whys, wy)
+								continue
+							}
+						}
 					}
 				}
 			}
@@ -682,6 +696,65 @@ func htmlOrigin(w *World, info *types.Info, f *FuncInfo, e ast.Expr, rawFns map[
 		return ""
 	}
 	return strings.Join(dedupe(whys), "; ")
+}
+
+// c01HTMLExceptions: functions in which conversions to template.HTML are not classified (one symbol each, with the reason).
+var c01HTMLExceptions = map[string]string{
+	"helpers/debug.Debug": "debug's documented purpose is to dump a value inside <pre>; it is meant for development output only",
+}
+
+// returnedOrigin: every return of g yields, at result position idx, a value of licensed origin
+// (the accompanying error returns with "" count as the empty string).
+func returnedOrigin(w *World, g *FuncInfo, idx int, rawFns map[*types.Func]bool, depth int) string {
+	if depth > 6 {
+		return ""
+	}
+	info := g.Pkg.TypesInfo
+	sig := g.Obj.Type().(*types.Signature)
+	if idx >= sig.Results().Len() || sig.Results().At(idx).Name() != "" {
+		return "" // named results may be assigned anywhere: not followed
+	}
+	var whys []string
+	rets := returnsIn(g.Decl.Body)
+	if len(rets) == 0 {
+		return ""
+	}
+	for _, ret := range rets {
+		var e ast.Expr
+		switch {
+		case len(ret.Results) == sig.Results().Len():
+			e = ret.Results[idx]
+		case len(ret.Results) == 1:
+			// return f(...): follow the callee at the same position
+			c, ok := unparen(ret.Results[0]).(*ast.CallExpr)
+			if !ok {
+				return ""
+			}
+			cal := calleeOf(info, c)
+			if cal != nil && isRenderingFunc(cal) {
+				whys = append(whys, "output that already went through the sink ("+cal.Name()+")")
+				continue
+			}
+			h := w.FuncOf(cal)
+			if h == nil || h.Decl.Body == nil {
+				return ""
+			}
+			wy := returnedOrigin(w, h, idx, rawFns, depth+1)
+			if wy == "" {
+				return ""
+			}
+			whys = append(whys, wy)
+			continue
+		default:
+			return ""
+		}
+		wy := htmlOrigin(w, info, g, e, rawFns, depth+1)
+		if wy == "" {
+			return ""
+		}
+		whys = append(whys, wy)
+	}
+	return "returned by " + g.Name() + ": " + strings.Join(dedupe(whys), "; ")
 }
 
 func dedupe(xs []string) []string {
